@@ -17,6 +17,7 @@ import PsutilModel.Proofs.C17Mac
 import PsutilModel.Proofs.C17Py
 import PsutilModel.Proofs.C17Shape
 import PsutilModel.Proofs.C17R3
+import PsutilModel.Proofs.C17Thr
 import PsutilModel.Model.C17Gen
 namespace Psutil.C17
 open Spec
@@ -1301,6 +1302,88 @@ example :
         .entry ⟨[110, 111, 110, 101], [47, 109], [101, 120, 116, 52], [114, 111]⟩,
         .entry ⟨[112], [47, 112], [112, 114, 111, 99], [114, 119]⟩].map renderMLine) false none
       = .rows [⟨[47, 100, 32, 97], [47], [101, 120, 116, 52], [114, 119]⟩] := by decide
+
+
+/-! ## seeded round 5 — several threads inside the extension at once (§24)
+
+`disk_partitions()` and `users()` decode records that libc hands out through ONE process-wide static object
+(`getmntent`, `getutent`).  The statement of C17 ("returns each mount entry's device, mount point, type and options",
+"each login record's …") knows one input per call — the file that call reads — so it must hold for every number of
+threads and every way their moves interleave. -/
+
+/-- translator obligation: no call made inside a GIL window (any spelling of the window, psutil helpers followed), in
+    any C function of the Linux build, is one of the libc functions that answer through a process-wide static object,
+    and every window the scan found is properly paired (`?…` entries describe the ones that are not) -/
+theorem gil_released_calls_good :
+    Gen.C17.gilReleasedCalls.all (fun p => !(Thr.nonReentrant.contains p.2) && p.2.toList.head? != some '?') = true := by decide
+
+/-- translator obligation: the scan behind `gilStaticLoops` looked for every name of `Thr.nonReentrant` -/
+theorem gil_scan_covers : Thr.nonReentrant.all (fun n => Gen.C17.gilScannedNames.contains n) = true := by decide
+
+/-- translator obligation: every function that makes a static-result call keeps the GIL from the call to the last access
+    through its result (no window around the call, none in between), and the two decoders are among them -/
+theorem gil_loops_good :
+    (∀ e ∈ Gen.C17.gilStaticLoops, (Thr.cfgOfEvents e.2).Good)
+    ∧ (Gen.C17.gilStaticLoops.map (·.1)).contains "psutil_disk_partitions" = true
+    ∧ (Gen.C17.gilStaticLoops.map (·.1)).contains "psutil_users" = true := by decide
+
+/-- **C17_thread_rows_own** — for EVERY number of threads, every file per thread (`files t`: the records call `t` reads),
+    every schedule (which thread moves next, for as long as one likes): with no GIL window around the static-result call
+    and none between the call and the decode, what call `t` has built is at every moment a beginning of ITS OWN file's
+    records, and once the call has returned it is exactly those records — nothing of another thread's file, nothing
+    lost, nothing twice.  (`Spec.Thr.callResult` does not mention the schedule.) -/
+theorem C17_thread_rows_own {α : Type} (c : Thr.GilCfg) (hc : c.Good) (files : Nat → List α) (sched : List Nat) (t : Nat) :
+    Spec.Thr.PartialOk files t (Thr.result c files sched t)
+    ∧ (Thr.finished c files sched t = true → Thr.result c files sched t = Spec.Thr.callResult files t) := by
+  have h := Thr.inv_rows (Thr.run_inv c hc files sched _ (Thr.init_inv files) t)
+  refine ⟨h.1, fun hf => h.2 ?_⟩
+  simpa [Thr.finished] using hf
+
+/-- the same for the loops of the source as it is: every function of `gilStaticLoops` (among them
+    `psutil_disk_partitions` and `psutil_users`, by `gil_loops_good`) -/
+theorem C17_thread_rows_own_current {α : Type} (e : String × List String) (he : e ∈ Gen.C17.gilStaticLoops)
+    (files : Nat → List α) (sched : List Nat) (t : Nat) :
+    Spec.Thr.PartialOk files t (Thr.result (Thr.cfgOfEvents e.2) files sched t)
+    ∧ (Thr.finished (Thr.cfgOfEvents e.2) files sched t = true
+        → Thr.result (Thr.cfgOfEvents e.2) files sched t = Spec.Thr.callResult files t) :=
+  C17_thread_rows_own _ (gil_loops_good.1 e he) files sched t
+
+/-- every complete run of a Good loop is schedule independent in the sense of the specification: whatever the schedule,
+    a call that has returned returned its own file -/
+theorem C17_thread_schedule_independent {α : Type} (c : Thr.GilCfg) (hc : c.Good) (files : Nat → List α) (s s' : List Nat) (t : Nat)
+    (h : Thr.finished c files s t = true) (h' : Thr.finished c files s' t = true) :
+    Thr.result c files s t = Thr.result c files s' t := by
+  rw [(C17_thread_rows_own c hc files s t).2 h, (C17_thread_rows_own c hc files s' t).2 h']
+
+/-- non-vacuity: two threads, fully interleaved, both calls return their own two records -/
+example :
+    let files : Nat → List Nat := fun t => if t = 0 then [10, 11] else if t = 1 then [20, 21] else []
+    let sched := [1, 0, 1, 0, 1, 0, 0, 1, 0, 0, 1, 1, 0, 0, 1, 0, 0, 0, 0]
+    Thr.finished ⟨false, false⟩ files sched 0 = true ∧ Thr.finished ⟨false, false⟩ files sched 1 = true
+    ∧ Thr.result ⟨false, false⟩ files sched 0 = [10, 11] ∧ Thr.result ⟨false, false⟩ files sched 1 = [20, 21] := by decide
+
+/-- **counterexample (seeded C17-5)** — the static-result call made inside a GIL window: thread 0 fetches its first record
+    while thread 2 (a thread that merely owns the GIL: its file is empty) keeps it from decoding, thread 1 fetches ITS
+    first record into the same static object, then both decode: call 0 returns thread 1's record. -/
+theorem C17_thread_released_call_counterexample :
+    let files : Nat → List Nat := fun t => if t = 0 then [10] else if t = 1 then [20] else []
+    let sched := [0, 0, 1, 1, 2, 0, 1, 2, 0, 0, 0, 0, 0]
+    Thr.finished ⟨true, false⟩ files sched 0 = true ∧ Thr.result ⟨true, false⟩ files sched 0 = [20]
+    ∧ ¬ Spec.Thr.PartialOk files 0 (Thr.result ⟨true, false⟩ files sched 0) := by decide
+
+/-- **counterexample** — the call made with the GIL held but a window opened before its result is decoded (say, a
+    `statvfs()` of the mount point wrapped in `Py_BEGIN_ALLOW_THREADS`): thread 1 runs its call inside that window. -/
+theorem C17_thread_window_counterexample :
+    let files : Nat → List Nat := fun t => if t = 0 then [10] else if t = 1 then [20] else []
+    let sched := [0, 0, 0, 1, 1, 1, 0, 0, 0, 0, 1, 1, 1, 1]
+    Thr.finished ⟨false, true⟩ files sched 0 = true ∧ Thr.result ⟨false, true⟩ files sched 0 = [20]
+    ∧ ¬ Spec.Thr.PartialOk files 0 (Thr.result ⟨false, true⟩ files sched 0) := by decide
+
+/-- the event lists of the two defects are read as the two bad configurations, the source's own shape as the good one -/
+example : Thr.cfgOfEvents ["release", "acquire", "release", "produce:getmntent", "acquire", "use", "use"] = ⟨true, false⟩
+    ∧ Thr.cfgOfEvents ["release", "acquire", "produce:getmntent", "use", "release", "acquire", "use"] = ⟨false, true⟩
+    ∧ Thr.cfgOfEvents ["release", "acquire", "produce:getmntent", "use", "use", "release", "acquire"] = ⟨false, false⟩
+    ∧ Thr.cfgOfEvents ["produce:getmntent", "lock", "use"] = ⟨true, true⟩ := by decide
 
 
 end Psutil.C17
